@@ -2,10 +2,15 @@
 import numpy as np
 
 from . import common as C
+from translate import solvers as TS
 
 PID = 'C11'
 SHARD_SIZE = 60
 IMPORTS = ['Base.Vec', 'C11.Model', 'C11.Corr']
+
+
+def translate():
+    return {'Gen/Solvers.v': TS.translate()}
 
 
 # ---------------------------------------------------------------- generators
